@@ -355,6 +355,87 @@ def zygoRead (prec32 : Bool) (f : List Nat) : Option (Nat × Nat × Float × Flo
     let out := permute 0 counts (flipIdx zygoReadFlip h w)
     some (h, w, hdrF32 f offLatRes, W, out.map (zygoValueF prec32 W S O R), readWarns f (h * w))
 
+/-! ## general file layout: `header_size` bytes of header, an intensity block of `ilen` native (little-endian) `uint16`
+(`ilen = ac_width * ac_height * max(ac_n_buckets, 1)`), then the phase block.  The library's writer leaves the intensity
+block empty (`zygo_written_layout`), instrument files do not. -/
+
+/-- `if ib == 0: ib = 1` -/
+def modelBuckets (ib : Int) : Int := if ib = 0 then 1 else ib
+/-- `ilen = iw * ih * ib` (after the bucket default) -/
+def modelIlen (iw ih ib : Int) : Int := iw * ih * modelBuckets ib
+/-- byte offset of the intensity block: `offset=header_len` -/
+def modelIntOffset (hdr : Int) : Int := hdr
+/-- byte offset of the phase block: `offset=header_len + ilen * 2` -/
+def modelPhaseOffset (hdr ilen : Int) : Int := hdr + ilen * 2
+/-- `multi_intensity_action` ↦ frame selection: `none` = mean over the frames, `some k` = frame with Python index `k` -/
+def modelFrameSel : List (String × Option Int) := [("avg", none), ("first", some 0), ("last", some (-1))]
+
+/-- the reader's counts for a file with a `hdr`-byte header and `ilen` intensity samples, truncation arithmetic of the
+source as parameters (as `readCountsG`); `none` = the reader raises (header or intensity block incomplete) -/
+def readCountsAtG (missingF : Int → Int → Int → Int → Int) (backtrackF : Int → Int) (tailF : Int → Int) (inv : Int)
+    (hdr ilen : Nat) (f : List Nat) (n : Nat) : Option (List Int) :=
+  let off := hdr + ilen * 2
+  if f.length < off then none
+  else
+    let a := f.toArray
+    let missing : Int := missingF n f.length hdr ilen
+    if missing ≤ 0 then some ((List.range n).map fun j => sampleAtA a (off + 4 * j))
+    else
+      let start := sliceStart n (tailF (backtrackF missing))
+      some ((List.range n).map fun j => if start ≤ j then inv else sampleAtA a (off + 4 * j))
+
+def readCountsAt (hdr ilen : Nat) (f : List Nat) (n : Nat) : Option (List Int) :=
+  readCountsAtG modelMissing modelBacktrack modelTailLower zygoInvalid hdr ilen f n
+
+def readWarnsAt (hdr ilen : Nat) (f : List Nat) (n : Nat) : Bool :=
+  hdr + ilen * 2 ≤ f.length && f.length < hdr + ilen * 2 + 4 * n
+
+/-- intensity sample `i` (native = little-endian `uint16`) of the block at byte offset `hdr` -/
+def intensityAt (f : List Nat) (hdr i : Nat) : Nat := decLE [f.getD (hdr + 2 * i) 0, f.getD (hdr + 2 * i + 1) 0]
+
+/-- bytes of an intensity block -/
+def intensityBytes (v : List Nat) : List Nat := v.flatMap (encLE 2)
+
+/-- the frame the reader returns: `sel = none`: mean over the `ib` frames (float64), `some k`: frame `k` (Python index) -/
+def selectFrame (sel : Option Int) (ib px : Nat) (raw : Array Nat) : List Float :=
+  match sel with
+  | some k =>
+    let fr : Nat := if k < 0 then (ib + k).toNat else k.toNat
+    (List.range px).map fun i => Float.ofNat (raw.getD (fr * px + i) 0)
+  | none =>
+    (List.range px).map fun i =>
+      Float.ofNat ((List.range ib).foldl (fun acc b => acc + raw.getD (b * px + i) 0) 0) / Float.ofNat ib
+
+def offHeaderSize : Nat := 6
+def offAcWidth : Nat := 52
+def offAcHeight : Nat := 54
+def offAcBuckets : Nat := 56
+
+/-- the reader with the layout taken from the header (`header_size`, `ac_width`, `ac_height`, `ac_n_buckets`):
+`(h, w, lateral_resolution, wavelength, values, warned, (frames, ih, iw, selected intensity frame))` -/
+def zygoReadL (prec32 : Bool) (sel : Option Int) (f : List Nat) :
+    Option (Nat × Nat × Float × Float × List Float × Bool × Nat × Nat × Nat × List Float) :=
+  if f.length < headerLen then none else
+  let w := hdrU16 f offWidth
+  let h := hdrU16 f offHeight
+  let hdr := hdrU32 f offHeaderSize
+  let iw := hdrU16 f offAcWidth
+  let ih := hdrU16 f offAcHeight
+  let ib := (modelBuckets (hdrU16 f offAcBuckets)).toNat
+  let ilen := (modelIlen iw ih (hdrU16 f offAcBuckets)).toNat
+  match readCountsAt hdr ilen f (h * w) with
+  | none => none
+  | some counts =>
+    let W := hdrF32 f offWvl
+    let S := hdrF32 f offScale
+    let O := hdrF32 f offObliq
+    let res := hdrU16 f offPhaseRes
+    let R : Float := if res = 0 then 4096.0 else if res = 1 then 32768.0 else 131072.0
+    let out := permute 0 counts (flipIdx zygoReadFlip h w)
+    let raw := ((List.range ilen).map (intensityAt f hdr)).toArray
+    some (h, w, hdrF32 f offLatRes, W, out.map (zygoValueF prec32 W S O R), readWarnsAt hdr ilen f (h * w),
+          ib, ih, iw, selectFrame sel ib (ih * iw) raw)
+
 /-! ## Code V grid INT -/
 
 def cvNDA : Int := -32768
